@@ -436,9 +436,16 @@ HUFF_INV = ["Tiling", "CodeSane", "RefuseExact", "StatsExact"]
 
 
 def huffman_property(out, q, seed, why_filter):
+    # thorough: two raw pushes (profiles from two sources, clear + re-profile + second generation)
     c = {"NSlots": 2, "MaxRaw": 1 if q else 2, "MaxMerge": 2, "MaxCoded": 2, "MaxClear": 1,
-         "ItemSel": "quick" if q else "thorough", "MaxCodeLen": 5, "Emit": True}
+         "ItemSel": "quick", "MaxCodeLen": 5, "Emit": True}
     scn = stage_scenarios(out, "model", "HuffmanMC.tla", c, HUFF_INV)
+    if not q:
+        # the larger item alphabet with one raw push
+        c2 = dict(c, MaxRaw=1, ItemSel="thorough")
+        scn2 = stage_scenarios(out, "model-items", "HuffmanMC.tla", c2, HUFF_INV)
+        validate_traces(out, "model-items-traces", "TraceHuffman.tla", os.path.join(SPEC, "TraceHuffman.cfg"),
+                        huffman_jobs(out, "model-items", scn2), why_filter)
     tcfg = os.path.join(SPEC, "TraceHuffman.cfg")
     jobs = huffman_jobs(out, "model", scn)
     validate_traces(out, "model-traces", "TraceHuffman.tla", tcfg, jobs, why_filter)
@@ -457,7 +464,7 @@ def huffman_property(out, q, seed, why_filter):
         os.remove(j)
 
 
-def contract_trace_stage(out, props, q, seed, subjects=None):
+def contract_trace_stage(out, props, q, seed, subjects=None, runs=None):
     """impl -> spec: seeded random histories of the real regions validated against TraceContract.tla;
     only rejections that belong to one of `props` count."""
     wd = os.path.join(WORK, out.prop)
@@ -465,7 +472,7 @@ def contract_trace_stage(out, props, q, seed, subjects=None):
     jobs = []
     for prof in ("dev", "release"):
         tr = os.path.join(wd, "contract.%s.ndjson" % prof)
-        args = [BIN[prof], "drive", "--seed", str(seed * 100 + 11), "--runs", str(3 if q else 40), "--steps", str(60 if q else 120),
+        args = [BIN[prof], "drive", "--seed", str(seed * 100 + 11), "--runs", str((3 if q else 40) if runs is None else runs), "--steps", str(60 if q else 120),
                 "--long", str(1500 if q else 20000), "--out", tr]
         if subjects:
             args += ["--subjects", ",".join(sorted(subjects))]
@@ -615,8 +622,10 @@ def summary_stage(out, q, seed):
 
 
 def dictionary_property(out, q, seed):
+    # thorough: a second merge generation (the larger string set multiplies the scenarios beyond what one
+    # trace validation digests in reasonable time; it is used by the random scenarios instead)
     c = {"NSlots": 2, "MaxGen0": 2, "MaxMerge": 1 if q else 2, "MaxCoded": 2, "MaxClear": 1,
-         "StrSel": "quick" if q else "thorough", "Emit": True}
+         "StrSel": "quick", "Emit": True}
     scn = stage_scenarios(out, "model", "DictMC.tla", c, DICT_INV, timeout=3000)
     tcfg = os.path.join(SPEC, "TraceDict.cfg")
     validate_traces(out, "model-traces", "TraceDict.tla", tcfg, dict_jobs(out, "model", scn, 2))
@@ -787,6 +796,7 @@ def run_property(prop, tier, seed):
         coded_stage(out, q, seed, lambda e: e.get("afterclear", False) and not e["why"].startswith("cmp"))
     elif prop == "C03":
         stack_stage(out, "flatstack", prop, stack_names(), 4 if q else 5, 1, 3 if q else 4, FS_OPS_ALL)
+        contract_trace_stage(out, ["C03"], q, seed, runs=0)
     elif prop == "C09":
         names = subjects_where(cat, lambda e: e["caps"]["clone"])
         region_stage(out, "clone", prop, names, 2, 4 if q else 5, 1, 3, ["push", "clear", "clone", "clone_from"])
